@@ -1,17 +1,18 @@
 SPECIFICATION Spec
 CONSTANTS
-  Masters = {1, 2, 3, 4}
+  Masters = {1, 2, 3}
   Nodes = {1}
   Rules <- AllRules
-  Cfg <- CfgPoS3
-  MaxLive = 2
-  MaxNum = 5
-  MaxNow = 2
+  Cfg <- CfgEnd3
+  MaxLive = 3
+  MaxNum = 1
+  MaxNow = 1
   MaxTx = 1
   MaxBal = 2
-  Kinds <- KindsStakeQ
-  Ords <- OrdId4
+  Kinds <- KindsSibQ
+  Ords <- OrdId3
   Window = TRUE
+  NumOf <- Flat
 INVARIANT TypeOK
 INVARIANT CacheCoherent
 INVARIANT CacheExact
